@@ -217,6 +217,10 @@ func main() {
 				fmt.Fprintf(os.Stderr, "   violated: %s [%s] %s shape=%v\n", c.Harness, c.Kind, c.Label, c.Choices)
 				validated++
 			} else {
+				if os.Getenv("VX_DEBUG") != "" {
+					b, _ := json.Marshal(c.Observe)
+					fmt.Fprintln(os.Stderr, "spurious candidate observed:", string(b), "native:", o.Observed)
+				}
 				spurious = append(spurious, fmt.Sprintf("%s: %q sat in the %s reading but not reproduced natively (status %s, fails %v; inputs %s)", c.Harness, c.Label, c.Mode, o.Status, o.Fails, inputsBrief(c)))
 			}
 		case "kf":
